@@ -123,6 +123,13 @@ class Reentrant:
         self.inner = inner
 
 
+class TabRepr:
+    """unregistered; its repr ends in white space that is not the separator (both renderers strip it at a line end)"""
+
+    def __repr__(self):
+        return 'TabRepr\t'
+
+
 class OldStyle:
     """unregistered; its __repr__ itself calls pformat (re-entrancy while the document is built)"""
 
@@ -238,6 +245,7 @@ def setup():
         {'t': Table(), 'more': [Table()]},
         [P.comment(1, 'one\n \ntwo'), P.trailing_comment([2, 3], 'ends with blanks   ')],
         'trailing blanks   ' * 8,
+        [TabRepr(), {'k': TabRepr(), 'j': [TabRepr()]}],
     ])
     REPR_CAPABLE[:] = [i for i, v in enumerate(VALUES) if isinstance(v, (Reg, Circle, Invoice))]
 
@@ -255,7 +263,7 @@ def generate(rng, idx, tier):
             ops.append(['pp_new', {s_: rng.choice(DOM[s_]) for s_ in KEYS if rng.random() < p_explicit}])
             continue
         if k == 'pp_use':
-            ops.append(['pp_use', rng.randrange(4), rng.randrange(26), rng.choice(['pformat', 'pprint'])])
+            ops.append(['pp_use', rng.randrange(4), rng.randrange(27), rng.choice(['pformat', 'pprint'])])
             continue
         if k == 'set':
             sub = {s: rng.choice(DOM[s]) for s in SETTABLE if rng.random() < p_set}
@@ -266,7 +274,7 @@ def generate(rng, idx, tier):
             ops.append(['get'])
         else:
             entry = rng.choice(ENTRIES)
-            v = rng.randrange(len(VALUES) if VALUES else 26)
+            v = rng.randrange(len(VALUES) if VALUES else 27)
             explicit = {s: rng.choice(DOM[s]) for s in KEYS if rng.random() < p_explicit}
             end = rng.choice(ENDS)
             if k == 'faulty':
